@@ -36,13 +36,19 @@ def datetime_isostring(date, keep_microseconds=False):
     # dates that have been read from a manifest (e.g. the hash dates carried over by flatten) already know their
     # utc offset, they are converted to local time instead of getting the local offset attached to their fields
     if date_to_format.tzinfo is not None:
-        return date_to_format.astimezone().isoformat()
+        local_date = date_to_format.astimezone()
+    else:
+        # use the utc offset that is in force at the given (local) date, not the one of the current time,
+        # the two differ e.g. for a file that has been modified in winter and is hashed in summer
+        utc_offset = date_to_format.astimezone().utcoffset()
+        local_date = date_to_format.replace(tzinfo=datetime.timezone(offset=utc_offset))
 
-    # use the utc offset that is in force at the given (local) date, not the one of the current time,
-    # the two differ e.g. for a file that has been modified in winter and is hashed in summer
-    utc_offset = date_to_format.astimezone().utcoffset()
+    # offsets with a seconds part (local mean time, e.g. Africa/Monrovia before 1972) cannot be written in
+    # ISO 8601 / xs:dateTime, such dates are given in UTC
+    if local_date.utcoffset().total_seconds() % 60 != 0:
+        local_date = local_date.astimezone(datetime.timezone.utc)
 
-    return date_to_format.replace(tzinfo=datetime.timezone(offset=utc_offset)).isoformat()
+    return local_date.isoformat()
 
 
 def datetime_now_isostring():
